@@ -253,6 +253,13 @@ class Gen:
             return "@interpolate(%s) " % kind, kind, "center"
         return "@interpolate(%s, %s) " % (kind, samp), kind, samp
 
+    def attrs(self, *parts):
+        """the attributes of one declaration, in either textual order (WGSL gives the order no meaning)"""
+        parts = [p for p in parts if p]
+        if len(parts) > 1 and self.r.chance(1, 2):
+            parts = parts[::-1]
+        return "".join(parts)
+
     def locations(self, n, pool=16):
         return sorted(self.r.shuffle(list(range(pool)))[:n])
 
@@ -280,7 +287,7 @@ class Gen:
                 for loc in self.locations(r.range(0, 4)):
                     t = r.choice(FLOAT_TYPES + INT_TYPES)
                     a, kind, samp = self.interp(t)
-                    items.append({"dir": "in", "loc": loc, "type": t, "attr": "@location(%d) %s" % (loc, a), "kind": kind, "samp": samp})
+                    items.append({"dir": "in", "loc": loc, "type": t, "attr": self.attrs("@location(%d) " % loc, a), "kind": kind, "samp": samp})
         items = r.shuffle(items)
         mode = r.choice(["bare", "bare", "struct", "struct", "mixed", "two_structs"]) if items else "bare"
         params, decls, stmts = [], [], []
@@ -332,7 +339,7 @@ class Gen:
             return "", [], [], "return;", None
         if stage == "vertex":
             inv = r.chance(1, 4)
-            posattr = "@builtin(position) " + ("@invariant " if inv else "")
+            posattr = self.attrs("@builtin(position) ", "@invariant " if inv else "")
             pos = {"dir": "out", "builtin": "position", "spv_builtin": 0, "type": "vec4<f32>", "invariant": inv,
                    "hlsl": "SV_Position", "msl": "position"}
             if r.chance(1, 4):
@@ -341,7 +348,7 @@ class Gen:
             for loc in self.locations(r.range(0, 4)):
                 t = r.choice(FLOAT_TYPES + INT_TYPES)
                 a, kind, samp = self.interp(t)
-                locs.append({"dir": "out", "loc": loc, "type": t, "attr": "@location(%d) %s" % (loc, a), "kind": kind, "samp": samp})
+                locs.append({"dir": "out", "loc": loc, "type": t, "attr": self.attrs("@location(%d) " % loc, a), "kind": kind, "samp": samp})
             sn = "Out%s" % epname.capitalize()
             members = [("pos", posattr, "vec4<f32>", pos)] + [("o%d" % i, l["attr"], l["type"], l) for i, l in enumerate(locs)]
             members = r.shuffle(members)
@@ -367,8 +374,8 @@ class Gen:
         if c == 4:
             if "enable dual_source_blending;" not in self.enable:
                 self.enable.append("enable dual_source_blending;")
-            members.append(("c0", "@location(0) @blend_src(0) ", "vec4<f32>", {"dir": "out", "loc": 0, "type": "vec4<f32>", "kind": None, "blend_src": 0}))
-            members.append(("c1", "@location(0) @blend_src(1) ", "vec4<f32>", {"dir": "out", "loc": 0, "type": "vec4<f32>", "kind": None, "blend_src": 1}))
+            members.append(("c0", self.attrs("@location(0) ", "@blend_src(0) "), "vec4<f32>", {"dir": "out", "loc": 0, "type": "vec4<f32>", "kind": None, "blend_src": 0}))
+            members.append(("c1", self.attrs("@location(0) ", "@blend_src(1) "), "vec4<f32>", {"dir": "out", "loc": 0, "type": "vec4<f32>", "kind": None, "blend_src": 1}))
         else:
             for i, loc in enumerate(self.locations(r.range(1, 3), 8)):
                 t = r.choice(["vec4<f32>", "f32", "vec4<u32>", "vec4<i32>", "vec2<f32>"])
